@@ -208,7 +208,7 @@ def covOf (t : Table Key Val) (op : Op Key Val) (t' : Table Key Val) (o : StepOu
     | .lookup _ | .oget _ => [if o.ret = 1 then "look-hit" else "look-miss"]
     | .delete _ | .odel _ => [if o.freed.isEmpty then "del-miss" else "del-hit"]
     | .deleteEntry _ => [if o.ret = 0 then "dele-live" else "dele-dead"]
-    | .resize _ => ["resize-op"]
+    | .resize n => ["resize-op"] ++ (if t'.size ≠ n ∧ o.ret = 0 then ["resize-new-table-grew"] else [])
     | .length | .olen => ["len"]
     | .oadd _ _ self isNew _ =>
         [if self then "oadd-self" else if isNew then "oadd-new-flag"
